@@ -104,7 +104,7 @@ fn scenario(name: &'static str, consumers: Vec<COp>, event: Event, cancel_first:
 
 pub fn units(thorough: bool) -> Vec<Unit> {
     use COp::*;
-    let d = if thorough { 3 } else { 2 };
+    let d = if thorough { 5 } else { 2 };
     let mut v = vec![];
     let cons: Vec<(&'static str, Vec<COp>)> = vec![
         ("pull1", vec![PullBlock(S0, 1)]),
@@ -138,7 +138,7 @@ pub fn units(thorough: bool) -> Vec<Unit> {
                 v.push(explore_unit(
                     format!("sched-cancel/cap{}/{}/{:?}", cap, cn, e),
                     format!("consumers {:?}, event {:?}, the first consumer is cancelled after k polls for every k (mailbox capacity {})", c, e, if cap == 0 { 16 } else { cap }),
-                    Bounds::new(if thorough { 2 } else { 1 }),
+                    Bounds::new(if thorough { 3 } else { 1 }),
                     ExecCfg { caps: (cap, cap), ..Default::default() },
                     scenario("cancel", c.clone(), e, true),
                 ));
